@@ -264,7 +264,9 @@ unsigned int OneDimensionOptimizationTools::lineSearch(
   // Update parameters:
   // parameters.matchParametersValues(f1dim.getFunction()->getParameters());
 
-  double xmin = f1dim->getParameters()[0].getValue();
+  // Take the step from the optimizer: when it gives up (step below the minimum length) it goes back to 0
+  // without evaluating the function again, so the direction function still holds the last rejected trial step.
+  double xmin = nbod.getParameters()[0].getValue();
   for (unsigned int j = 0; j < parameters.size(); ++j)
   {
     xi[j] *= xmin;
